@@ -433,3 +433,17 @@ def sole_outcome(ctx, outs, label):
                expected="every normal exit does what the other normal exits do (write the file, refresh the digest, store the entry, ...)",
                found=f"this exit skips {repr(missing[0])[:220]}")
     return [main]
+
+
+def absent(ctx, label, fi, what, consequence):
+    """The function exists and was evaluated, and the effect the property is about does not occur in it at all (count 0): that is a
+    verdict (the record is not written, the envelope is not added, ...), not an unrecognised form.  Reports and aborts the property."""
+    from sa.index import Abort
+    R = ctx.report
+    rid = f"{ctx.prop}-G2 the analysed effect is present"
+    if rid not in R.rules:
+        R.rule(rid, 0, "the effect the rules reason about occurs in the anchored function")
+    R.fail(rid, label, mod=fi.module if fi is not None else None, node=fi.node if fi is not None else None,
+           function=ctx.fq(fi) if fi is not None else label, construct=f"absent: {what}", expected=f"{what} on the normal path",
+           found=f"no such effect in the function: {consequence}")
+    raise Abort()
